@@ -370,6 +370,11 @@ class Interp:
         if isinstance(fn, ClassRef):
             return self.instantiate(fn, args, kwargs)
         if isinstance(fn, Opaque):
+            if fn.name.startswith("numba.njit") or fn.name.startswith("numba.jit") or fn.name.endswith(".njit") or fn.name.endswith(".jit"):
+                # decorator: njit(f) -> f ; njit(**kw) -> njit
+                if args and isinstance(args[0], FuncRef):
+                    return args[0]
+                return Opaque("numba.njit")
             return Opaque(fn.name + "()")
         if callable(fn):
             return fn(*args, **kwargs)
@@ -401,6 +406,29 @@ class Interp:
         init = ri.class_member(cref.mod, cref.node, "__init__")
         if init is not None and isinstance(init[2], ast.FunctionDef):
             self.apply_funcref(FuncRef(init[0], init[2], bound_self=obj, qual=f"{init[1].name}.__init__"), list(args), kwargs)
+            return obj
+        # dataclass / NamedTuple style: annotated fields in definition order (bases first)
+        fields = []
+        for m, c in reversed(ri.mro(cref.mod, cref.node)):
+            for st in c.body:
+                if isinstance(st, ast.AnnAssign) and isinstance(st.target, ast.Name):
+                    ann = ast.unparse(st.annotation)
+                    if ann.startswith("ClassVar"):
+                        continue
+                    fields = [f for f in fields if f[0] != st.target.id] + [(st.target.id, st.value, m)]
+        kwargs = dict(kwargs)
+        for i, (fname, default, m) in enumerate(fields):
+            if i < len(args):
+                obj.attrs[fname] = args[i]
+            elif fname in kwargs:
+                obj.attrs[fname] = kwargs.pop(fname)
+            elif default is not None:
+                try:
+                    obj.attrs[fname] = self.eval(default, Env(m))
+                except OutsideFragment:
+                    obj.attrs[fname] = Opaque(f"default {fname}")
+        if kwargs and fields:
+            raise OutsideFragment(f"unexpected fields {sorted(kwargs)} for {name}")
         return obj
 
     def apply_funcref(self, fn, args, kwargs):
@@ -838,6 +866,9 @@ class Interp:
                 self.assign(t, v, env)
         elif isinstance(target, ast.Subscript):
             base = self.eval(target.value, env)
+            if isinstance(base, dict):
+                base[_hash(self.eval(target.slice, env))] = val
+                return
             idx = self.eval_index(target.slice, env)
             if isinstance(base, np.ndarray):
                 if isinstance(val, np.ndarray):
@@ -1236,6 +1267,11 @@ class Interp:
 
     def e_Subscript(self, node, env):
         base = self.eval(node.value, env)
+        if isinstance(base, dict):
+            k = _hash(self.eval(node.slice, env))
+            if k not in base:
+                raise OutsideFragment(f"dict key {k!r} missing")
+            return base[k]
         idx = self.eval_index(node.slice, env)
         if isinstance(base, np.ndarray):
             try:
@@ -1370,6 +1406,8 @@ class Interp:
                 return ()
         if isinstance(base, tuple) and base and base[0] == "np":
             return ("np", base[1] + "." + attr)
+        if isinstance(base, slice) and attr in ("start", "stop", "step"):
+            return getattr(base, attr)
         raise OutsideFragment(f"attribute {attr} of {type(base).__name__}")
 
     def e_Call(self, node, env):
@@ -1502,7 +1540,10 @@ class Interp:
         raise OutsideFragment(f"builtin {name}")
 
     def isinstance(self, v, cls):
-        classes = cls if isinstance(cls, tuple) else (cls,)
+        if isinstance(cls, tuple) and not (cls and isinstance(cls[0], str)):
+            classes = cls
+        else:
+            classes = (cls,)
         for c in classes:
             if isinstance(c, tuple) and c[:1] == ("builtin",):
                 n = c[1]
@@ -1517,6 +1558,10 @@ class Interp:
                 if n == "dict" and isinstance(v, dict):
                     return True
                 if n == "str" and isinstance(v, str):
+                    return True
+                if n == "slice" and isinstance(v, slice):
+                    return True
+                if n == "bool" and isinstance(v, bool):
                     return True
                 if n == "complex" and isinstance(v, sp.Basic) and v.has(sp.I):
                     return True
